@@ -168,9 +168,9 @@ CHECKS["C16"] = {
     "prepare": probes.prepare,
     "assumptions": ["ast definitions are built directly by the harness (not through the SDL parser); arbitrary schemas are outside the bound"],
     "harnesses": [
-        {"pkg": "graphql/introspection", "harness": "Harness_C16_fields", "reach": ["c16.fields"], "workers": 8, "quick": {"sample_models": 30, "sample_every": 13},
+        {"pkg": "graphql/introspection", "harness": "Harness_C16_fields", "reach": ["c16.fields"], "workers": 8, "quick": {"sample_models": 30, "sample_every": 13}, "thorough": {"params": {"defaults": 10}, "workers": 14},
          "what": "Type.Fields: 2 fields x 2 arguments, each with symbolic @deprecated (+/- reason), description, default value, includeDeprecated"},
-        {"pkg": "graphql/introspection", "harness": "Harness_C16_inputsEnums", "reach": ["c16.inputs"], "workers": 8, "quick": {"sample_models": 30, "sample_every": 13},
+        {"pkg": "graphql/introspection", "harness": "Harness_C16_inputsEnums", "reach": ["c16.inputs"], "workers": 8, "quick": {"sample_models": 30, "sample_every": 13}, "thorough": {"params": {"defaults": 10}, "workers": 14},
          "what": "InputFields, EnumValues(includeDeprecated), Schema.Directives/directiveFromDef with symbolic @deprecated on each element"},
         {"probe": "core", "harness": "Harness_C16_disabled", "setup": "Setup_C16_disabled", "reach": ["c16.enabled", "c16.disabled"], "workers": 6, "sched": "first",
          "configs_quick": ["single"], "configs_thorough": ["single", "follow", "funcsyn"], "quick": {"sample_models": 20},
@@ -205,5 +205,16 @@ CHECKS["C11"] = {
              what="wsConnection.init: 15 first-frame kinds x 6 payloads x 4 init-function behaviours x 2 subprotocols"),
         dict(_WS, harness="Harness_C11_subscribe", reach=["c11.sub.ran", "c11.sub.rejected"], quick={"sample_models": 40, "sample_every": 7},
              what="wsConnection.subscribe + its goroutine: verdict x 0..2 payloads x panic at step k x subscription error x 3 start payloads"),
+    ],
+}
+
+CHECKS["C12"] = {
+    "assumptions": ["time.NewTicker is modelled as a daemon task that may deliver a tick at any scheduling point (at most 'ticks' times); every write to the ResponseWriter fake is an explicit preemption point in the SSE harness",
+                    "payload sequences satisfy C13's hasNext contract; aggregator flush ticks are symbolic Booleans at every point between Adds (flush and Add hold the same mutex)"],
+    "harnesses": [
+        dict(_WS, harness="Harness_C12_multipart", reach=["c12.multipart"], quick={"sample_models": 40, "sample_every": 3},
+             what="multipartResponseAggregator Add/flush/Done over 1 + 0..3 payloads with a symbolic flush tick at every point: independent multipart parser on the bytes"),
+        dict(_WS, harness="Harness_C12_sse", reach=["c12.sse"], race=True, sched_confirm=True, quick={"params": {"ticks": 1}, "sample_models": 10, "sample_every": 7}, thorough={"params": {"ticks": 2}},
+             what="SSE.Do with 0..2 payloads / rejected operation, keep-alive ticker firing at any scheduling point, every write a preemption point: event grammar, exactly-once, no overlapping writes, race check"),
     ],
 }
